@@ -8,7 +8,7 @@ def _call(a):
     try:
         return ("ok", _FN(a))
     except BaseException as e:
-        return ("err", f"{type(e).__name__}: {e}\n{traceback.format_exc()[-2000:]}")
+        return ("err", f"{type(e).__name__}: {str(e)[:600]}\n{traceback.format_exc()[-1500:]}")
 
 
 def pmap(fn, items, nproc=16):
